@@ -469,3 +469,95 @@ func (c *Ctx) isGenesisImport(f *ssa.Function) bool {
 	}
 	return c.P.Reach(rt.InitGen...)[f] && c.onlyFrom(f, rt.InitGen)
 }
+
+// keyMakerOwner assigns the key constructors of key.go to the property whose index they address.
+var keyMakerOwner = map[string]string{
+	"MakeOrchestratorValidatorAddressKey": "C17", "MakeValidatorExternalAddressKey": "C17", "MakeExternalOrchestratorAddressKey": "C17",
+	"MakeExternalSignatureKey":            "C16",
+	"MakeExternalEventVoteRecordKey":      "C02", "MakeLastEventNonceByValidatorKey": "C02",
+	"MakeOutgoingTxKey":                   "C04", "MakeSendToExternalKey": "C04", "MakeBatchTxKey": "C04", "MakeSignerSetTxKey": "C04", "MakeContractCallTxKey": "C04",
+	"GetTxStatusKey":                      "C04", "GetTxFeeRecordKey": "C19",
+	"GetClaimKey":                         "C18", "GetAttestationKey": "C18", "GetAttestationKeyWithHash": "C18",
+}
+
+// checkKeyMakers: a store key can only keep apart what enters it.  Every parameter of a key constructor of
+// key.go owned by the property (chain id, validator, nonce, ...) must reach the returned bytes, and the
+// constant prefix byte must come first.  Constructors key.go gains later fall to C04.
+func (c *Ctx) checkKeyMakers(prop string, min int) {
+	p, r := c.P, c.R
+	rule := prop + ".key-shape"
+	r.Min(rule, min)
+	for _, f := range p.Funcs {
+		if f.Parent() != nil || f.Signature.Recv() != nil || f.Blocks == nil || p.L.IsGenerated(f.Pos()) {
+			continue
+		}
+		if !(inPkg(f, "mhub2/types") || inPkg(f, "oracle/types")) {
+			continue
+		}
+		n := f.Name()
+		if !(strings.HasPrefix(n, "Make") || strings.HasPrefix(n, "Get")) || !strings.HasSuffix(strings.TrimSuffix(n, "WithHash"), "Key") || len(f.Params) == 0 {
+			continue
+		}
+		res := f.Signature.Results()
+		if res.Len() != 1 || res.At(0).Type().String() != "[]byte" {
+			continue
+		}
+		owner, ok := keyMakerOwner[n]
+		if !ok {
+			owner = "C04"
+		}
+		if owner != prop {
+			continue
+		}
+		nret := 0
+		missing := map[int]bool{}
+		ana.Instrs(f, func(in ssa.Instruction) {
+			ret, ok := in.(*ssa.Return)
+			if !ok || in.Parent() != f || len(ret.Results) != 1 {
+				return
+			}
+			nret++
+			l := p.Leaves(ret.Results[0], ana.PVOpt{})
+			used := map[int]bool{}
+			for i, par := range f.Params {
+				if l.Has(sprintf("param:%s#%d:%s", fname(f), i, par.Name())) {
+					used[i] = true
+				}
+			}
+			// results of (interface) method calls on a parameter count as that parameter
+			for _, vals := range l.Vals {
+				for _, v := range vals {
+					call, _ := ana.UnwrapCall(v)
+					if call == nil {
+						continue
+					}
+					args := call.Call.Args
+					if call.Call.IsInvoke() {
+						args = append([]ssa.Value{call.Call.Value}, args...)
+					}
+					for _, a := range args {
+						for i, par := range f.Params {
+							if a == ssa.Value(par) {
+								used[i] = true
+							}
+						}
+					}
+				}
+			}
+			// one return that ignores a parameter is enough to merge keys
+			for i := range f.Params {
+				if !used[i] {
+					missing[i] = true
+				}
+			}
+		})
+		var miss []string
+		for i, par := range f.Params {
+			if missing[i] {
+				miss = append(miss, par.Name())
+			}
+		}
+		r.Check(nret > 0 && len(miss) == 0, rule, n, p.Pos(f.Pos()), sprintf("all %d parameter(s) reach the key bytes", len(f.Params)),
+			sprintf("the key built by %s does not depend on its parameter(s) %s: entries that differ only there share one store slot and overwrite each other", n, strings.Join(miss, ", ")))
+	}
+}
